@@ -771,6 +771,10 @@ class KInterp:
             st.env[dst] = alts[0][1]
             return None
         if not alts:
+            # every alternative was pruned: legitimate only if the cell itself is empty (an earlier partition produced a
+            # cell whose emptiness the interval test did not see); confirmed by polyhedral emptiness, else undecided
+            if (not st.case.feasible()) or st.case.fm_infeasible():
+                return ('alts', dst, [])
             raise Undecided('no feasible alternative')
         return ('alts', dst, alts)
 
@@ -1091,7 +1095,16 @@ class KInterp:
                 elif b.isconst():
                     b = KV(C(b.cval() ^ MSB), b.cval() ^ MSB, b.cval() ^ MSB, a.sh)
                 else:
-                    raise Undecided('signed compare of a shifted and an unshifted value')
+                    # signed order of the two bit patterns: a shifted operand's pattern orders like its unshifted value,
+                    # an unshifted operand's pattern orders like value + 2^(w-1) mod 2^w (partition on its top bit)
+                    half = 1 << (w - 1)
+                    out = []
+                    xs = [(c, KV(a.p, a.lo, a.hi, 0, None, w))] if a.sh else s._flip(c, a, half, w)
+                    for c1, fa in xs:
+                        ys = [(c1, KV(b.p, b.lo, b.hi, 0, None, w))] if b.sh else s._flip(c1, b, half, w)
+                        for c2, fb in ys:
+                            out += s.cmp_u(c2, 'u' + pred[1:], fa, fb)
+                    return out
             if a.sh == 1:
                 pred = 'u' + pred[1:]
             elif a.hi < (1 << (w - 1)) and b.hi < (1 << (w - 1)):
@@ -1366,6 +1379,153 @@ def final_poly(case, p, exact=False):
     return z if exact else z.modp()
 
 
+def _lin_propagate(box, cons):
+    """interval propagation with integer rounding over constraints (poly, op) whose non-constant monomials are single
+    symbols after pinned symbols are substituted; products of one unpinned symbol with pinned ones are linear too.
+    Mutates box; returns False on an empty box."""
+    for _ in range(6):
+        changed = False
+        for q, op in cons:
+            terms = {}
+            k0 = 0
+            ok = True
+            for m, co in q.d.items():
+                free = None
+                val = co
+                for x, e in m:
+                    l, h = box[x]
+                    if l == h:
+                        val *= l ** e
+                    elif free is None and e == 1:
+                        free = x
+                    else:
+                        ok = False
+                        break
+                if not ok:
+                    break
+                if free is None:
+                    k0 += val
+                else:
+                    terms[free] = terms.get(free, 0) + val
+            if not ok:
+                continue
+            terms = {x: c_ for x, c_ in terms.items() if c_}
+            if not terms:
+                if (op == '>=0' and k0 < 0) or (op == '<0' and k0 >= 0):
+                    return False
+                continue
+            for x, cx in terms.items():
+                rl = rh = 0
+                for y, cy in terms.items():
+                    if y == x:
+                        continue
+                    l, h = box[y]
+                    if cy > 0:
+                        rl += cy * l
+                        rh += cy * h
+                    else:
+                        rl += cy * h
+                        rh += cy * l
+                l, h = box[x]
+                if op == '>=0':
+                    bnd = -k0 - rh              # cx*x >= bnd
+                    if cx > 0:
+                        nl = -((-bnd) // cx)
+                        if nl > l:
+                            l = nl
+                            changed = True
+                    else:
+                        nh = (-bnd) // (-cx)
+                        if nh < h:
+                            h = nh
+                            changed = True
+                else:
+                    bnd = -1 - k0 - rl          # cx*x <= bnd
+                    if cx > 0:
+                        nh = bnd // cx
+                        if nh < h:
+                            h = nh
+                            changed = True
+                    else:
+                        nl = -(bnd // (-cx))
+                        if nl > l:
+                            l = nl
+                            changed = True
+                if l > h:
+                    return False
+                box[x] = (l, h)
+        if not changed:
+            break
+    return True
+
+
+def guided_witness(case, extra, check, seed=0, budget=3000):
+    """constructive search for a concrete point of `case` plus the extra constraints: propagate, branch on the symbol
+    with the smallest range (quotients and small coefficients first, which makes the remaining products linear), and
+    verify every leaf by exact evaluation from the input symbols (`check(assignment)`).  Only ever used to *produce*
+    a witness; nothing is concluded from its failure."""
+    import random
+    rnd = random.Random(seed)
+    cons = list(case.cons) + list(extra)
+    derived = set()
+    for d in case.defs:
+        if d[0] == 'shr':
+            derived.add(d[1])
+        elif d[0] == 'limbs':
+            derived.update(d[2])
+    free = sorted(x for x in case.box if x not in derived)
+    nodes = [0]
+
+    def complete(a):
+        for d in case.defs:
+            if d[0] == 'shr':
+                a[d[1]] = d[2].ev(a) >> d[3]
+            elif d[0] == 'limbs':
+                v = d[1].ev(a)
+                for sy, (shift, width) in zip(d[2], d[3]):
+                    a[sy] = (v >> shift) & ((1 << width) - 1)
+        return a
+
+    def rec(box):
+        nodes[0] += 1
+        if nodes[0] > budget:
+            return None
+        if not _lin_propagate(box, cons):
+            return None
+        open_ = [x for x, (l, h) in box.items() if l < h]
+        if not open_:
+            a = {x: box[x][0] for x in free}
+            try:
+                a = complete(a)
+            except KeyError:
+                return None
+            if any(not (case.box[x][0] <= a[x] <= case.box[x][1]) for x in case.box if x in a):
+                return None
+            for p_, op in case.cons:
+                v = p_.ev(a)
+                if (op == '>=0' and v < 0) or (op == '<0' and v >= 0):
+                    return None
+            return {x: a[x] for x in free} if check(a) else None
+        x = min(open_, key=lambda y: (box[y][1] - box[y][0], y))
+        l, h = box[x]
+        cands = [l, h, l + 1, h - 1, (l + h) // 2]
+        cands += [rnd.randint(l, h) for _ in range(3)]
+        seen = set()
+        for v in cands:
+            if v in seen or not (l <= v <= h):
+                continue
+            seen.add(v)
+            b2 = dict(box)
+            b2[x] = (v, v)
+            r = rec(b2)
+            if r is not None:
+                return r
+            if nodes[0] > budget:
+                return None
+        return None
+    return rec(dict(case.box))
+
+
 def witness_search(case, diff, seed=0, tries=600, exact=False, pred=None):
     """a concrete assignment of the cell's input symbols (derived symbols recomputed from their definitions) that
     satisfies all of the cell's constraints and on which diff != 0 (mod p); None if none was found"""
@@ -1425,4 +1585,20 @@ def witness_search(case, diff, seed=0, tries=600, exact=False, pred=None):
                 return {x: a[x] for x in free}
         except KeyError:
             continue
-    return None
+    # random sampling found nothing: constructive search
+    if pred is not None:
+        return guided_witness(case, [], pred, seed)
+    if exact:
+        chk = lambda a: diff.ev(a) != 0
+    else:
+        chk = lambda a: diff.ev(a) % P != 0
+    # the residual of a failing cell is usually a small integer combination of quotient symbols: ask for residual >= 1,
+    # then <= -1, over the integers
+    pins = {x: Poly.const(l) for x, (l, h) in case.box.items() if l == h and x in diff.vars()}
+    dl = diff.subst(pins) if pins else diff
+    if all(len(m) == 1 and m[0][1] == 1 for m in dl.d if m != ()):
+        for extra in ([(dl - 1, '>=0')], [(dl, '<0')]):
+            w = guided_witness(case, extra, chk, seed)
+            if w is not None:
+                return w
+    return guided_witness(case, [], chk, seed, budget=1500)
